@@ -245,5 +245,10 @@ func init() {
 	extendProp("C18", "pos-distinct: in every grammar action each node that gets a position gets the result of its own call of the position builder (one call = one object of the pool): no two nodes of an action hold the result of the same call, and none takes over the Position of an existing node - the pool's distinctness guarantee reaches the tree only if its client does not hand one object to two owners (seed C18-12: one `pos` local stored in a variable node and in its name).",
 		[]report.Floor{{Rule: "pos-distinct", What: "nodes", Min: 850}},
 		func(c *Ctx) { defer c.cleanup(); c.flowFixture("pos-distinct", flowRules["pos-distinct"]); c.flowRule("pos-distinct", flowRules["pos-distinct"]) })
+	const tbnd = "token-bounds: the invariant 0 <= ts <= te <= len that idx-guard uses wherever a token's bytes are cut out of the input is discharged from the transition system: at every outcome of every action block that ends a token step, and wherever addFreeFloatingToken or setTokenPosition see the bounds, te - ts >= 0 over the intervals of the (d,e) dataflow (refined by the lex.act value the path tested and by what a successful ungetStr implies); every amount given back by ungetCnt is >= 0; te is only ever written as p or p+1 inside Lex or moved back by an unget, ts only as p or 0. idx-guard now also forgets, after a call, whatever the callee may assign."
+	tbF := []report.Floor{{Rule: "token-bounds", What: "blocks", Min: 150}, {Rule: "token-bounds", What: "writes", Min: 300}}
+	for _, id := range []string{"C01", "C04"} {
+		extendProp(id, tbnd, tbF, func(c *Ctx) { defer c.cleanup(); c.scanRun("token-bounds") })
+	}
 	properties["PO"] = &Property{Level: "other", Run: func(c *Ctx) { defer c.cleanup(); c.presenceOracle() }}
 }
